@@ -318,8 +318,11 @@ tx_outs:\n{tx_outs}
         # create the serialization per spec
         # start with version: int_to_little_endian in 4 bytes
         s = int_to_little_endian(self.version, 4)
-        # next, how many inputs there are: encode_varint
-        s += encode_varint(len(self.tx_ins))
+        # next, how many inputs get serialized: encode_varint
+        if hash_type & SIGHASH_ANYONECANPAY:
+            s += encode_varint(1)
+        else:
+            s += encode_varint(len(self.tx_ins))
         # loop through each input: for i, tx_in in enumerate(self.tx_ins)
         for i, tx_in in enumerate(self.tx_ins):
             sequence = tx_in.sequence
@@ -350,8 +353,13 @@ tx_outs:\n{tx_outs}
                     s += new_tx_in.serialize()
             else:
                 s += new_tx_in.serialize()
-        # add how many outputs there are using encode_varint
-        s += encode_varint(len(self.tx_outs))
+        # add how many outputs get serialized using encode_varint
+        if hash_type & 3 == SIGHASH_NONE:
+            s += encode_varint(0)
+        elif hash_type & 3 == SIGHASH_SINGLE:
+            s += encode_varint(input_index + 1)
+        else:
+            s += encode_varint(len(self.tx_outs))
         # add the serialization of each output
         for i, tx_out in enumerate(self.tx_outs):
             if hash_type & 3 == SIGHASH_NONE:
